@@ -55,6 +55,9 @@ Calls ==
 \cup {C("EnoughShares", t, n, "-", IF t \in {"min", "neg", "lo-1"} THEN "reject" ELSE "any") : t \in Ints, n \in Ints}
 \cup {C("BLSReconstructThresholdSignature", cnt, sh, sg, "any-or-reject") :
         cnt \in {"none", "t", "t+1", "t+2", "t+3", "2t+2", "n"}, sh \in Bytes, sg \in {"ok", "dup", "neg", "n", "fewer", "nil"}}
+\* reconstruction at the ends of the size range, with the first / last participants among the signers
+\cup {C("BLSReconstructThresholdSignatureSize", n, who, sh, "any-or-reject") :
+        n \in {"2", "3", "8", "9", "127", "128", "129", "253", "254"}, who \in {"first", "last", "both"}, sh \in {"exact", "short", "huge"}}
 \cup {C("NewBLSThresholdSignatureInspector", t, l, "-", OkIf(ValidInt(t) /\ l \in {"two", "many"})) : t \in Ints, l \in Lists}
 \cup {C("InspectorOp", op, i, b, "any-or-reject") :
         op \in {"TrustedAdd", "VerifyAndAdd", "VerifyShare", "HasShare", "ThresholdSignatureAfterAdds", "VerifyThresholdSignature"}, i \in Ints, b \in Bytes}
